@@ -8,6 +8,8 @@ From VP Require Import Base.Tactics Expr.Syntax Expr.Float Expr.Gen_EvalTables E
 Local Open Scope Z_scope.
 
 (* facts about the regenerated tables *)
+Lemma fold_phases_classified : forallb (forallb (fun r => rule_okb r || known_identity_rule r)) fold_phases = true.
+Proof. vm_compute. reflexivity. Qed.
 Lemma fold_unary_rules_ok : forallb urule_okb fold_unary_rules = true.
 Proof. vm_compute. reflexivity. Qed.
 
@@ -119,16 +121,29 @@ Proof.
   - now apply IH.
 Qed.
 
+Lemma select_rule_forallb : forall (P : frule -> bool) rules op l r ru,
+  select_rule O rules op l r = Some ru -> forallb P rules = true -> P ru = true.
+Proof.
+  induction rules as [|r0 rules IH]; intros op l r ru H HP; cbn [select_rule] in H; [discriminate|].
+  cbn [forallb] in HP. apply andb_true_iff in HP. destruct HP as [H0 Hrest].
+  destruct (binop_eqb (fr_op r0) op && pat_matches O (fr_l r0) l && pat_matches O (fr_r r0) r && fguard_holds O (fr_g r0) r).
+  - inversion H; subst; assumption.
+  - eapply IH; eassumption.
+Qed.
+
 Lemma run_phases_sound : forall phases op l r,
+  forallb (forallb (fun r => rule_okb r || known_identity_rule r)) phases = true ->
   rule_fires O phases op l r = false ->
   exists e', run_phases O phases op l r = Some e' /\
              (forall env, eval env e' = eval env (EBin O op l r)) /\ (e' = EBin O op l r \/ is_lit e').
 Proof.
-  induction phases as [|ph phases IH]; intros op l r H; cbn [run_phases].
+  induction phases as [|ph phases IH]; intros op l r HC H; cbn [run_phases].
   - eexists; split; [reflexivity|]. split; [reflexivity | left; reflexivity].
-  - cbn [rule_fires] in H. rewrite pick_rule_select.
+  - cbn [forallb] in HC. apply andb_true_iff in HC. destruct HC as [HCph HCrest].
+    cbn [rule_fires] in H. rewrite pick_rule_select.
     destruct (select_rule O ph op l r) as [ru|] eqn:Sel; [|now apply IH].
-    destruct (rule_okb ru) eqn:Hok; [|discriminate].
+    pose proof (select_rule_forallb _ _ _ _ _ _ Sel HCph) as Hcls. cbn beta in Hcls.
+    destruct (rule_okb ru) eqn:Hok; [|cbn in Hcls; congruence].
     destruct (select_rule_matches _ _ _ _ _ Sel) as [Hop [Hl [Hr Hg]]].
     destruct (act_apply O (fr_act ru) l r) as [e'| |] eqn:E.
     + exists e'. split; [reflexivity|]. split.
@@ -142,7 +157,7 @@ Lemma fold_binary_sound : forall op l r,
   rule_fires O fold_phases op l r = false ->
   exists e', fold_binary O op l r = Some e' /\
              (forall env, eval env e' = eval env (EBin O op l r)) /\ (e' = EBin O op l r \/ is_lit e').
-Proof. intros. now apply run_phases_sound. Qed.
+Proof. intros. apply run_phases_sound; [apply fold_phases_classified | assumption]. Qed.
 
 Lemma pick_urule_sound : forall rules op x env,
   forallb urule_okb rules = true ->
